@@ -164,7 +164,3 @@ theorem Requirement.__hash___eq_model (r : Req.Requirement) :
 
 end Src
 
-#print axioms Src.Requirement._iter_parts_eq_model
-#print axioms Src.Requirement.__str___eq_model
-#print axioms Src.Requirement.__hash___eq_model
-#print axioms Src.ReqStr.str_url_empty_differs
